@@ -16,7 +16,7 @@ LIBS = ('numpy', 'scipy', 'sklearn')
 
 class ApiDomain(TagDomain):
   name = 'api'
-  inline_depth = 7
+  inline_depth = 11
 
   def __init__(self):
     super().__init__()
